@@ -394,24 +394,6 @@ def run(prog, tier) -> Result:
         res.discharged += 1
     res.violations.extend(fails)
 
-    # lazily consumed generator handed to a mutating call interleaves its raises with the writes
-    for n in ast.walk(up.node):
-        if isinstance(n, ast.Call) and isinstance(n.func, ast.Attribute) and n.func.attr in ("update", "extend"):
-            lazy = []
-            for a in n.args:
-                if isinstance(a, ast.GeneratorExp):
-                    lazy.append(a)
-                elif isinstance(a, ast.Name):
-                    for m in ast.walk(up.node):
-                        if isinstance(m, ast.Assign) and any(isinstance(t, ast.Name) and t.id == a.id for t in m.targets) \
-                                and isinstance(m.value, ast.GeneratorExp):
-                            lazy.append(m.value)
-            may_raise = [g for g in lazy if any(isinstance(x, ast.Call) for x in ast.walk(g.elt))]
-            res.ob("R11.5b", "MoneyConverter.update", f"`{src_of(n.func)}` argument is fully built before the write",
-                   not may_raise, "a generator whose element expression can raise is consumed by the mutating call: "
-                   "entries before the failing one stay in the table",
-                   sig="lazy generator consumed by a mutating call")
-
     # ---- B1 ownership
     writes = inventory(prog, ["quantity.money"])
     cg = CallGraph(prog)
